@@ -32,19 +32,28 @@ def run(args):
     try:
         known = {(k["rule"], k["construct"]) for k in json.loads((V / "known_findings.json").read_text())["findings"]
                  if k.get("status") == "known"}
-        for p in props:
+        def one(p, ctx):
             mod = importlib.import_module(f"sa.rules.{p.lower()}")
             try:
-                ctx = Ctx(base)
                 rep, err = evaluate(p, [r for r in mod.RULES if r.tier != "thorough"], ctx, "quick")
             except AnalysisError as e:
                 rep, err = None, str(e)
             if err is not None:
-                out[p] = "ANALYSIS-ERROR " + err[:300]
-                continue
+                return "ANALYSIS-ERROR " + err[:300]
             new = sorted({(o.rule, o.construct, o.detail[:160]) for o in rep.obs if not o.ok and (o.rule, o.construct) not in known})
-            if new:
-                out[p] = [f"{r} {c} :: {d}" for r, c, d in new][:6]
+            return [f"{r} {c} :: {d}" for r, c, d in new][:6] if new else None
+        # one model for all properties (building it is the expensive part); anything reported is re-confirmed with a
+        # model of its own, exactly as ./check would see it
+        try:
+            shared = Ctx(base)
+        except AnalysisError as e:
+            return label, {"*": "ANALYSIS-ERROR " + str(e)[:300]}
+        for p in props:
+            v = one(p, shared)
+            if v is not None:
+                v = one(p, Ctx(base))
+            if v is not None:
+                out[p] = v
     finally:
         shutil.rmtree(base, ignore_errors=True)
     return label, out
@@ -57,7 +66,7 @@ def main():
         props = sys.argv[sys.argv.index("--props") + 1].split(",")
     patches = sorted(d.glob("*/patch.diff")) + sorted(d.glob("*/*/patch.diff"))
     jobs = [(str(p.parent.relative_to(d)), str(p), props) for p in patches]
-    with ProcessPoolExecutor(max_workers=8) as ex:
+    with ProcessPoolExecutor(max_workers=int(os.environ.get('SA_JOBS', '12'))) as ex:
         results = list(ex.map(run, jobs))
     alarms = 0
     for label, out in results:
